@@ -38,6 +38,12 @@ claim("C12",
  "static analysis: call census against a role table, who-may-call over static callers, dominator-guard recognition, CFG must-pass-through",
  "DESIGN.md §3 C12")
 
+claim("C08",
+ "Inter-procedural mutation-footprint analysis (engine E1): for each of the ~92 non-update operator handlers discovered from the operationType table, context-sensitive summaries (parameter/free-variable/global roots, fresh objects with separate container / Content / Key / back-edge contents, callbacks, interface dispatch over module implementations, locally built dynamic evaluations) show that no store reaches a node of the handler's context unless dominated by a !DontAutoCreate test; Context-deriving methods keep the read-only flag, WritableClone is the single escalation point and a writable context never meets a user sub-expression; the 42 operand evaluations that are read-only on the pinned tree (incl. the `as` binder and `select`) must stay read-only. Necessary conditions: an unguarded store into an input node is visible in `(E) as $x | .`.",
+ TB + " E1 is flow-insensitive per function and collapses objects per allocation site; foreign functions are assumed not to write CandidateNode fields. The read-only reference table (ref_readonly.go) is the set of sites confirmed on the pinned tree.",
+ "static analysis: summary-based provenance/mutation-footprint analysis over go/ssa with dominator guards; evaluation-site census against a confirmed reference",
+ "DESIGN.md §2.2, §3 C08")
+
 na = {
  "C01": "whole-property quantifies over runtime values of all programs x documents; no structural clause with detection value beyond what C09/C11 already check (DESIGN.md §3 C01)",
 }
